@@ -45,7 +45,7 @@ def build(y0s, y1s, place):
 
 def ops(w):
     y0, y1 = w.syms
-    m0, m1 = w.mods
+    m0, m1 = w.mods[:2]
     out = []
 
     def op(name, f):
@@ -137,7 +137,7 @@ def run(y0s, y1s, place, opis):
 
 SHARD.setdefault("b0size", 1)
 N_OPS = len(ops(build((0, 0, 0), (0, 0, 0), (0, 0))))
-Y1_QUICK = [(1, 1, 3), (2, 1, 2), (1, 0, 4)]
+Y1_QUICK = [(1, 1, 3), (2, 0, 4), (1, 1, 2)]
 
 
 def step(ym: int, yn: int, yp: int, pl: int, z: int, op: int, op2: int) -> bool:
@@ -164,7 +164,10 @@ def step(ym: int, yn: int, yp: int, pl: int, z: int, op: int, op2: int) -> bool:
             y1s = (SHARD["y1m"], zz // NPAY, zz % NPAY)
         else:
             y1s = tuple(Y1_QUICK[zz])
-    opis = [SHARD["op_lo"] + pick(op, SHARD["nops"])]
+    if "first_ops" in SHARD:
+        opis = [SHARD["first_ops"][pick(op, len(SHARD["first_ops"]))]]
+    else:
+        opis = [SHARD["op_lo"] + pick(op, SHARD["nops"])]
     if k2:
         opis.append(pick(op2, SHARD["nops2"]))
     with untraced():
@@ -181,7 +184,7 @@ ASSUMPTIONS = [
 ]
 OUTSIDE = "more than two symbols / two modules / one block and one proxy; names outside {'', 'a', 'b'}; histories longer than the tier's K"
 BOUNDS = {
-    "quick": "y0: every (module, name, payload) state (45) x y1 in 3 representative states x 9 placements of block and proxy x %d operations, K = 1" % N_OPS,
+    "quick": "y0: every (module, name, payload) state (45) x y1 in 2 representative states x 9 placements of block and proxy x %d operations, K = 1" % N_OPS,
     "thorough": "y0 x y1 both over all 45 states x 9 placements x %d operations (K = 1), and K = 2 (all %d x %d operation pairs) on 90 pre-states (y0 attached and named 'a', y1 in 3 representative states, 3 placements)" % (N_OPS, N_OPS, N_OPS),
 }
 
@@ -191,12 +194,15 @@ def shards(tier):
     chunk = 3
     if tier == "quick":
         for lo in range(0, N_OPS, chunk):
-            out.append({"fn": "step", "consts": {"full_y1": 0, "nz": len(Y1_QUICK), "op_lo": lo, "nops": min(chunk, N_OPS - lo), "nops2": 1,
+            out.append({"fn": "step", "consts": {"full_y1": 0, "nz": 2, "op_lo": lo, "nops": min(chunk, N_OPS - lo), "nops2": 1,
                                                  "b0size": (lo // chunk) % 2},
                         "timeout": 900, "twin": "first", "cover": "first"})
         # two operations in sequence on a reduced pre-state set (leave-and-return sequences)
-        for lo in range(0, N_OPS, 2):
-            out.append({"fn": "step", "consts": {"full_y1": 0, "nz": 1, "op_lo": lo, "nops": min(2, N_OPS - lo), "nops2": N_OPS, "b0size": 1},
+        names = [n for n, _f in ops(build((0, 0, 0), (0, 0, 0), (0, 0)))]
+        leaving = [i for i, n in enumerate(names) if any(k in n for k in (".module=", "discard", "remove", "clear", "pop", "proxies", "sections", "section=", "byte_interval="))]
+        for lo in range(0, len(leaving), 2):
+            fo = leaving[lo:lo + 2]
+            out.append({"fn": "step", "consts": {"full_y1": 0, "nz": 1, "first_ops": fo, "op_lo": 0, "nops": len(fo), "nops2": N_OPS, "b0size": 1},
                         "timeout": 900, "twin": False, "cover": False})
     else:
         for y1m in range(3):
